@@ -234,6 +234,8 @@ func runC04(c *Ctx) {
 	}
 	enumerate(c, cfgD)
 
+	// conditional role managers (not modelled): no stale decision after any change either
+	condFamily(c, 3, "on a conditional role definition a decision went stale: the live enforcer decides differently from a fresh one given the listed rules")
 	n := 100
 	if c.Thorough() {
 		n = 4000
